@@ -14,11 +14,15 @@ RING_BUFFER_API(s16_ring, int16_t)
 RING_BUFFER_ITER_API(s16_ring, int16_t)
 RING_BUFFER_API(f64_ring, double)
 RING_BUFFER_ITER_API(f64_ring, double)
+/* a queue of buffer pointers, the element type spelled with its '*' in the macro argument (not hidden behind a typedef) */
+RING_BUFFER_API(ptr_ring, uint8_t *)
+RING_BUFFER_ITER_API(ptr_ring, uint8_t *)
 /* the override switch called the way C callers do: with whatever integer expression they have (a masked configuration word, a count) */
 void vp_octet_ring_ovr(octet_ring *r, int v);
 void vp_u32_ring_ovr(u32_ring *r, int v);
 void vp_s16_ring_ovr(s16_ring *r, int v);
 void vp_f64_ring_ovr(f64_ring *r, int v);
+void vp_ptr_ring_ovr(ptr_ring *r, int v);
 #ifdef __cplusplus
 }
 #endif
